@@ -27,6 +27,55 @@ PROPS = {
     },
 }
 
+U1_ASSUME = ["DNSSector objects are created by DNSSector::new (inv(): offset <= len); pub fields are not written by callers",
+             "private loaders (u8_load, be16_load, ..) are only called with small constant offsets (requires rr_offset < 1000, checked at every call site)"]
+
+PROPS.update({
+    "C01": {
+        "title": "Parsing untrusted bytes is total: a result or an error, never a crash or hang",
+        "units": ["U1"], "cone": None,
+        "witness": ("c01", 20000),
+        "level": "proof", "design_ref": "DESIGN.md section 5 C01",
+        "assumptions": U1_ASSUME,
+        "level_text": "every index, slice, subtraction, addition, unwrap and assert of the validator and of the public name/cursor primitives is a discharged Verus obligation; every loop has a decreases clause; parse ensures Ok(pp) ==> pp.packet == input. No precondition on buffers, offsets or increments.",
+        "technique": "Verus safety obligations + decreases on the mechanically extracted validator (unit U1)",
+    },
+    "C02": {
+        "title": "The parser accepts exactly the packets that are well-formed under its policy",
+        "units": ["U1"], "cone": None,
+        "witness": ("c02", 20000),
+        "level": "proof", "design_ref": "DESIGN.md section 5 C02",
+        "assumptions": U1_ASSUME,
+        "level_text": "parse(p).is_ok() <==> wf_packet(p) with wf_packet a spec function written from the property text (spec/wire.rs, literals only); every helper on the path has an iff-contract, both directions in one proof",
+        "technique": "Verus iff-contracts of the extracted validator against a recursive wire specification",
+    },
+    "C18": {
+        "title": "Validation work is linear in the packet size",
+        "units": ["U1"],
+        "cone": [r"check_compressed_name", r"check_uncompressed_name$", r"DNSSector::parse_opt$", r"DNSSector::parse_rr$", r"DNSSector::parse$", r"spec/linear\.rs"],
+        "witness": None,
+        "level": "proof", "design_ref": "DESIGN.md section 5 C18",
+        "assumptions": U1_ASSUME + ["the ghost step counters are incremented once at every loop head of the walkers (spliced by the side-car, listed in the evidence); 'ghost counter == real iterations' is by construction of the splice",
+                                     "parse_rr performs at most 3 name walks: counted syntactically, not proved"],
+        "level_text": "ghost step counters with local bounds (<= 271 per name walk, >= 11 bytes per record, >= 4 per option) are loop invariants of the real code; the linear composition is a proved arithmetic lemma (spec/linear.rs)",
+        "technique": "Verus ghost counters + loop invariants + decreases on the extracted validator; arithmetic composition lemma",
+        "extra": ["c18_walk_count"],
+    },
+    "C04": {
+        "title": "Header, question and EDNS summaries equal what the bytes say",
+        "units": ["U1", "U3"],
+        "cone": {"U1": [r"DNSSector::(parse|parse_opt|parse_rr|new|opt_rr_|be16_load|u8_load)"],
+                 "U3": [r"ParsedPacket::(packet|tid|flags|dnssec|is_response|rcode|opcode|max_payload)$", r"DNSSector::(is_response|qdcount|ancount|nscount|arcount)$"]},
+        "witness": ("c04", 10000),
+        "kani": {"harnesses": ["c04_header_getters"], "quick": True,
+                 "arbitrate": {r"ParsedPacket::(flags|rcode|opcode|is_response|tid|dnssec)$": "c04_header_getters"}},
+        "level": "proof", "design_ref": "DESIGN.md section 5 C04",
+        "assumptions": U1_ASSUME,
+        "level_text": "parse's postcondition pins every EDNS summary field to the spec decode of the OPT record (or None/0/512); header getters are bit-exact (Verus bit_vector + complete Kani harness on the real crate)",
+        "technique": "Verus postconditions on parse/parse_opt + bit_vector contracts of the getters + loop-free Kani harness",
+    },
+})
+
 NOT_APPLICABLE = {
     "C15": "C ABI facade: unsafe extern \"C\" wrappers over raw pointers driven through callbacks, plus parity with a C header; "
            "neither Verus (no model of these raw-pointer casts/CStr) nor Kani (no callbacks-as-scripts, every fallible wrapper reaches anyhow) "
